@@ -190,9 +190,10 @@ end
 
 /-! ## strftime / strptime at field level -/
 
-/-- number of characters `%Y` prints on this platform (glibc: no zero padding) -/
+/-- number of characters of the year field — src: parameters.py `_strftime`: `%Y` is replaced by
+`'%04d' % value.year`, i.e. zero-padded to four digits whatever the C library does -/
 def yearDigits (y : Nat) : Nat :=
-  if y < 10 then 1 else if y < 100 then 2 else if y < 1000 then 3 else if y < 10000 then 4 else 5
+  if y < 10000 then 4 else 5
 
 def fmtDate (y m d : Nat) : JStr := .stamp ⟨y, yearDigits y, m, d, none⟩
 def fmtDateTime (y m d h mi s us : Nat) : JStr := .stamp ⟨y, yearDigits y, m, d, some (h, mi, s, us)⟩
@@ -399,6 +400,10 @@ def dateLe : PyVal → PyVal → Bool
     lexLe [y, m, d, h, mi, s, us] [y', m', d', h', mi', s', us']
   | _, _ => false
 
+def isDateOnly : PyVal → Bool
+  | .date .. => true
+  | _ => false
+
 /-- the value part of `_validate` for a non-None value -/
 def PCfg.accepts (c : PCfg) (len : Nat) (v : PyVal) : Bool :=
   match c, v with
@@ -421,7 +426,9 @@ def PCfg.accepts (c : PCfg) (len : Nat) (v : PyVal) : Bool :=
   | .date, .datetime y m d h mi s us => wfDate (.datetime y m d h mi s us)
   | .calendarDate, .date y m d => wfDate (.date y m d)
   | .dateRange, .tuple [x, y] => len == 2 && wfDate x && wfDate y && dateLe x y
-  | .calendarDateRange, .tuple [x, y] => len == 2 && wfDate x && wfDate y && dateLe x y
+  -- src: CalendarDateRange._validate_value: a tuple of dates, datetimes rejected
+  | .calendarDateRange, .tuple [x, y] =>
+    len == 2 && isDateOnly x && isDateOnly y && wfDate x && wfDate y && dateLe x y
   | .list it lo hi, .list l =>
     (match lo with | some n => decide (n ≤ l.length) | none => true) &&
     (match hi with | some n => decide (l.length ≤ n) | none => true) &&
